@@ -236,6 +236,7 @@ func runC12(x *Ctx) {
 	sliceOperands(x, res, elem, curCell)
 
 	sliceTable(x)
+	runTotalLoops(x, "C12")
 	indexTable(x)
 	decimalNumbers(x)
 
